@@ -387,4 +387,45 @@ def extraKeys (geo : Geometry) (km : Nat → Option Key) (dmap : List (Key × Dg
 /-- a frame without the record of what its generator saw -/
 def Frame.payload (f : Frame) : Nat × Dg × Nat := (f.dev, f.dg, f.idx)
 
+/-! ## `datagram_option` aggregation and `ParallelMode` (additive; nothing above depends on it)
+
+Mirror of the `DatagramOption { timeout: ZERO, parallel_threshold: usize::MAX }` accumulator of
+`group_send` (`timeout.max(..)`, `parallel_threshold.min(..)` per consumed datagram), of
+`self.option.timeout.unwrap_or(datagram_option.timeout)` and of `ParallelMode::is_parallel`. -/
+
+/-- `usize::MAX` on the 64-bit targets the harness runs on -/
+def usizeMax : Nat := 2 ^ 64 - 1
+
+/-- `DatagramOption`: timeout (ms), parallel threshold -/
+structure DgOpt where
+  timeout : Nat
+  parThr : Nat
+deriving DecidableEq, Repr
+
+/-- the accumulator `group_send` starts from -/
+def DgOpt.zero : DgOpt := { timeout := 0, parThr := usizeMax }
+
+/-- one step of the accumulation -/
+def DgOpt.agg (a d : DgOpt) : DgOpt :=
+  { timeout := max a.timeout d.timeout, parThr := min a.parThr d.parThr }
+
+/-- the `datagram_option` after the datagrams `l` were consumed (in that order) -/
+def aggOptions (l : List DgOpt) : DgOpt := l.foldl DgOpt.agg DgOpt.zero
+
+/-- `self.option.timeout.unwrap_or(datagram_option.timeout)` -/
+def effTimeout (senderTimeout : Option Nat) (a : DgOpt) : Nat := senderTimeout.getD a.timeout
+
+inductive ParMode | auto | on | off
+deriving DecidableEq, Repr
+
+/-- `ParallelMode::is_parallel(num_devices, parallel_threshold)` -/
+def ParMode.isParallel : ParMode → Nat → Nat → Bool
+  | .on, _, _ => true
+  | .off, _, _ => false
+  | .auto, n, thr => decide (n > thr)
+
+/-- `self.geometry.num_devices()`: the enabled devices -/
+def numDevices (g : Geometry) : Nat := (devices g).length
+
+
 end Autd3.Group
